@@ -158,6 +158,9 @@ func alphabet() []op {
 		// later), and connections that fail before they ever log in: they may disturb nobody,
 		// in particular not a connection that is between its upgrade and its login
 		{"open", "V"}, {"login", "V"}, {"stray-close", ""}, {"stray-unknown-user", ""},
+		// an authenticated operator sends a frame that is no event at all ({} / plain text):
+		// nothing is recorded or distributed, and everything afterwards works as before
+		{"junk-object", "U"}, {"junk-text", "V"},
 	}
 }
 
@@ -177,7 +180,7 @@ func (w *world) enabled() []int {
 			if !w.clients[o.arg].connected && !w.clients[o.arg].opened {
 				continue
 			}
-		case "chat":
+		case "chat", "junk-object", "junk-text":
 			if !w.clients[o.arg].connected {
 				continue
 			}
@@ -276,6 +279,18 @@ func (w *world) apply(o op) {
 		tag := "user-:" + c.user
 		w.retained = append(w.retained, tag)
 		w.bcast(tag, c.id)
+	case "junk-object", "junk-text":
+		c := w.clients[o.arg]
+		if o.name == "junk-object" {
+			c.ws.SendText("{}")
+		} else {
+			c.ws.SendText("hello, not json")
+		}
+		w.s.Block("driver waits for "+c.id, func() bool { return idle(c.ws.Raw) || c.done })
+		if w.strays == nil {
+			w.strays = map[string]bool{}
+		}
+		w.strays[o.name] = true // no effect in the model, but part of the state key (see strays)
 	case "chat":
 		c := w.clients[o.arg]
 		msg := fmt.Sprintf("c%d", w.n)
